@@ -129,6 +129,29 @@ pub struct Driver {
     pub raw_log: Vec<(String, Vec<u8>)>,
 }
 
+/// attribute type codes of the application attribute kinds (in the order given)
+pub fn app_types(app: &[String]) -> Vec<u64> {
+    app.iter()
+        .filter_map(|k| match k.as_str() {
+            "software" | "software2" => Some(0x8022),
+            "username" => Some(0x0006),
+            "realm" => Some(0x0014),
+            "nonce" => Some(0x0015),
+            "userhash" => Some(0x001E),
+            "pwdalg" => Some(0x001D),
+            "pwdalgs" => Some(0x8002),
+            "mi" => Some(0x0008),
+            "sha" => Some(0x001C),
+            "fp" => Some(0x8028),
+            "priority" => Some(0x0024),
+            "lifetime" => Some(0x000D),
+            "unknown_attrs" => Some(0x000A),
+            "data" => Some(0x0013),
+            _ => None,
+        })
+        .collect()
+}
+
 fn us(d: Duration) -> (i64, bool) {
     let ns = d.as_nanos();
     ((ns / 1000) as i64, ns % 1000 == 0)
@@ -405,7 +428,7 @@ impl Driver {
         let fp = obs::fingerprint_status(b, &p);
         let fp_last = p.attrs.last().map(|a| a.t == obs::T_FP).unwrap_or(false);
         // reference key
-        let (key, ltd) = self.srv.reference_key(&self.cfg, &p, outbound);
+        let (key, ltd) = self.srv.reference_key(&self.cfg, b, &p, outbound);
         let mi = obs::integrity_status(b, &p, obs::T_MI, key.as_deref());
         let sha = obs::integrity_status(b, &p, obs::T_SHA, key.as_deref());
         let user = match p.attrs.iter().find(|a| a.t == obs::T_USERNAME) {
@@ -529,7 +552,7 @@ impl Driver {
                     Ok(Err(StunAgentError::InternalError(_))) => ("internal", -1),
                     Ok(Err(_)) => ("other", -1),
                 };
-                self.record("send", json!({"method":method,"app":app,"buf":buf}), res, idn);
+                self.record("send", json!({"method":method & 0xFFF,"app":app,"app_types":app_types(app),"buf":buf}), res, idn);
             }
             Step::Indic { at, method, app, buf } => {
                 self.now_us = self.resolve_time(at, false);
@@ -550,7 +573,7 @@ impl Driver {
                     Ok(Err(StunAgentError::InternalError(_))) => ("internal", -1),
                     Ok(Err(_)) => ("other", -1),
                 };
-                self.record("indic", json!({"method":method,"app":app,"buf":buf}), res, idn);
+                self.record("indic", json!({"method":method & 0xFFF,"app":app,"app_types":app_types(app),"buf":buf}), res, idn);
             }
             Step::Timeout { at } => {
                 self.now_us = self.resolve_time(at, true);
@@ -632,8 +655,12 @@ impl Driver {
             items.push(Item::Raw(obs::T_XOR_MAPPED, v));
         }
         // credential material
+        let req_bytes: Option<Vec<u8>> = {
+            let n = self.idn(&id);
+            self.first_pkt.get(&n).cloned()
+        };
         let key: Vec<u8> = match self.cfg.mech.as_str() {
-            "lt" => self.srv.add_lt_attrs(&self.cfg, m, &mut items),
+            "lt" => self.srv.add_lt_attrs(&self.cfg, m, req_bytes.as_deref(), &mut items),
             _ => obs::st_key(&self.cfg.password),
         };
         let other = match self.cfg.mech.as_str() {
